@@ -1332,6 +1332,47 @@ def d1p_destination_kind_is_checked(chk: Check) -> None:
                      "TypeError instead of a MergeException")
 
 
+def d2i_exact_key_entry_first(chk: Check) -> None:
+    """An identity key can be configured for one record (`/list[name=x] =
+    sku`) and for the whole Array (`/list = name`).  The record's own entry
+    wins: it is looked up first, and the entries of the *parent* are only
+    consulted when there is none.  Folding the two look-ups into one pass
+    over the table makes the winner depend on the order of the lines in
+    the configuration file."""
+    prog = chk.prog
+    chk.rule("C05-D2i", "aoh_merge_key / aoh_diff_key look the node's own "
+             "entry up first (_get_key_for) and scan the parents' entries "
+             "only when that found nothing", floor=2)
+    for q in ("MergerConfig.aoh_merge_key", "DifferConfig.aoh_diff_key"):
+        fi = prog.func(q)
+        own = [a for a in fi.node.body if isinstance(a, ast.Assign) and
+               isinstance(a.value, ast.Call) and
+               src(a.value.func).endswith("_get_key_for")]
+        text = "{}: look-up order".format(fi.short)
+        if not own:
+            chk.fail("C05-D2i", fi, fi.node, text,
+                     "the node's own [keys] entry is not looked up on its "
+                     "own: whichever entry (record or whole Array) comes "
+                     "first in the table decides")
+            continue
+        key = src(own[0].targets[0])
+        scans = [l for l in walk_local(fi.node) if isinstance(l, ast.For) and
+                 ".keys.items()" in src(l.iter)]
+        bad = [l for l in scans if not any(
+            f.kind == "cond" and not f.pol and src(f.expr) == key or
+            f.kind == "cond" and f.pol and src(f.expr) == "not " + key
+            for f in facts_at(l))]
+        if scans and not bad:
+            chk.ok("C05-D2i", fi, scans[0], text,
+                   "parents scanned under `not {}`".format(key))
+        elif not scans:
+            chk.ok("C05-D2i", fi, own[0], text, "own entry only")
+        else:
+            chk.fail("C05-D2i", fi, bad[0], text,
+                     "the scan of the parents' entries is not limited to "
+                     "the case that the node has no entry of its own")
+
+
 def d1q_rekeying_keeps_position(chk: Check) -> None:
     """When a key of an ordered mapping is replaced by another object (the
     node of the surviving Anchor takes the place of the losing one), the
@@ -1388,6 +1429,7 @@ def run(chk: Check) -> None:
     d1k_snapshot_of_right_operand(chk)
     d1q_rekeying_keeps_position(chk)
     d1p_destination_kind_is_checked(chk)
+    d2i_exact_key_entry_first(chk)
     d2h_option_names_fold_case(chk)
     from rules.shared import effects_not_shortcircuited_rule
     effects_not_shortcircuited_rule(
